@@ -17,7 +17,7 @@ echo "unmodified demo: $base"; echo "patched lib:     $lib"; echo "patched demo:
 cd /repo && git apply $d/patch.diff || { echo "cannot apply to /repo"; exit 2; }
 res=""
 for c in $checks; do
-  out=$(cd /verif && ./bin/check $c --tier quick 2>&1); rc=$?
+  out=$(cd /verif && VERIF_DEV_OUT=/verif/.work/seedout ./bin/check $c --tier quick 2>&1); rc=$?
   v=$(echo "$out" | grep -c "^VIOLATION")
   echo "check $c rc=$rc violations=$v"; echo "$out" | grep -A1 "^VIOLATION" | head -6 | cut -c1-400
   res="$res $c:rc$rc"
